@@ -119,6 +119,12 @@ pub struct Model<'a> {
     pub enc_ctx: std::cell::Cell<&'static str>,
     /// collect mode: encode faults are recorded here and encoding continues
     pub enc_collect: std::cell::RefCell<Option<Vec<(EncFault, &'static str)>>>,
+    /// classification aid (never an oracle): when set, faults found *inside the elements* of an
+    /// array of the outermost declaration whose extent does not depend on its elements (size
+    /// field, element size known) are forgiven. Used to tell "elements are not validated" from
+    /// other false accepts of a lazily parsing backend.
+    pub lenient_elems: std::cell::Cell<bool>,
+    struct_depth: std::cell::Cell<u32>,
 }
 
 #[derive(Debug, Clone, PartialEq, Eq)]
@@ -170,7 +176,7 @@ pub fn enum_tag_value(d: &Desc, enum_id: &str, tag: &str) -> Option<u64> {
 
 impl<'a> Model<'a> {
     pub fn new(d: &'a Desc) -> Model<'a> {
-        Model { d, length_ctx: std::cell::Cell::new("none"), enc_ctx: std::cell::Cell::new("none"), enc_collect: std::cell::RefCell::new(None) }
+        Model { d, length_ctx: std::cell::Cell::new("none"), enc_ctx: std::cell::Cell::new("none"), enc_collect: std::cell::RefCell::new(None), lenient_elems: std::cell::Cell::new(false), struct_depth: std::cell::Cell::new(0) }
     }
 
     /// report an encode fault: aborts the encoding, or records it in collect mode
@@ -713,7 +719,12 @@ impl<'a> Model<'a> {
                 }
                 Some((Val::Int(x), n))
             }
-            ElemTy::Struct(s) => self.decode_type(s, b, faults),
+            ElemTy::Struct(s) => {
+                self.struct_depth.set(self.struct_depth.get() + 1);
+                let r = self.decode_type(s, b, faults);
+                self.struct_depth.set(self.struct_depth.get() - 1);
+                r
+            }
             ElemTy::Unsupported => panic!("unsupported element"),
         }
     }
@@ -866,6 +877,8 @@ impl<'a> Model<'a> {
                     let mut elems: Vec<Val> = vec![];
                     let mut used: usize = 0;
                     // decode `count` elements (None: until the region is exhausted)
+                    let unit0 = esize.filter(|_| static_elem.is_none()).or(static_elem);
+                    let lenient_here = self.lenient_elems.get() && self.struct_depth.get() == 0 && (unit0.is_some() || sizes.contains_key(id));
                     let mut run = |region: &[u8], count: Option<u64>, faults: &mut BTreeSet<Fault>| -> Option<usize> {
                         let mut p = 0usize;
                         let mut n = 0u64;
@@ -875,32 +888,49 @@ impl<'a> Model<'a> {
                                 None if p >= region.len() => break,
                                 _ => {}
                             }
-                            match esize {
-                                Some(es) if static_elem.is_none() => {
-                                    if region.len() - p < es {
-                                        self.length_fault(faults, "array-elementsize-chunk");
-                                        return None;
+                            let before = if lenient_here { Some(faults.clone()) } else { None };
+                            let mut stop = false;
+                            let step = (|| -> Option<usize> {
+                                match esize {
+                                    Some(es) if static_elem.is_none() => {
+                                        if region.len() - p < es {
+                                            self.length_fault(faults, "array-elementsize-chunk");
+                                            return None;
+                                        }
+                                        let chunk = &region[p..p + es];
+                                        let (v, used) = self.decode_elem(&ety, chunk, faults, 0)?;
+                                        if used != es {
+                                            faults.insert(Fault::TrailingInArray);
+                                            return None;
+                                        }
+                                        elems.push(v);
+                                        if es == 0 && count.is_none() {
+                                            stop = true;
+                                        }
+                                        Some(es)
                                     }
-                                    let chunk = &region[p..p + es];
-                                    let (v, used) = self.decode_elem(&ety, chunk, faults, 0)?;
-                                    if used != es {
-                                        faults.insert(Fault::TrailingInArray);
-                                        return None;
-                                    }
-                                    elems.push(v);
-                                    p += es;
-                                    if es == 0 && count.is_none() {
-                                        break;
+                                    _ => {
+                                        let (v, used) = self.decode_elem(&ety, &region[p..], faults, 0)?;
+                                        elems.push(v);
+                                        if used == 0 && count.is_none() {
+                                            stop = true;
+                                        }
+                                        Some(used)
                                     }
                                 }
-                                _ => {
-                                    let (v, used) = self.decode_elem(&ety, &region[p..], faults, 0)?;
-                                    elems.push(v);
-                                    p += used;
-                                    if used == 0 && count.is_none() {
-                                        break;
-                                    }
+                            })();
+                            if let Some(b4) = before {
+                                if step.is_none() || *faults != b4 {
+                                    *faults = b4;
+                                    return Some(match count {
+                                        Some(c) => (c as usize).saturating_mul(unit0.unwrap_or(0)).min(region.len()),
+                                        None => region.len(),
+                                    });
                                 }
+                            }
+                            p += step?;
+                            if stop {
+                                break;
                             }
                             n += 1;
                         }
@@ -933,7 +963,7 @@ impl<'a> Model<'a> {
                                 }
                                 let s = (*s - modifier) as usize;
                                 if avail.len() < s {
-                                    self.length_fault(faults, "array-size");
+                                    self.length_fault(faults, if pad.is_some() { "array-size-beyond-padding" } else { "array-size" });
                                     return None;
                                 }
                                 let unit = esize.filter(|_| static_elem.is_none()).or(static_elem);
